@@ -5,12 +5,14 @@
 EXTENDS Integers, Sequences, TLC
 
 
-S0 == [m |-> "init", d |-> "top", refs |-> 3, flag |-> FALSE, handler |-> FALSE, sig |-> FALSE, inv |-> FALSE, bound |-> FALSE,
+S0 == [m |-> "init", d |-> "top", refs |-> 3, flag |-> FALSE, handler |-> FALSE, sig |-> FALSE, inv |-> FALSE, poison |-> FALSE, bound |-> FALSE,
        exit |-> -1, mach |-> "none"]
 
 (* ------------------------------ main thread ------------------------------ *)
 MInit(s)     == [s EXCEPT !.m = "serve"]                               \* LSP initialize handshake done
-MShutdown(s) == [s EXCEPT !.m = "wait_exit", !.sig = s.handler, !.handler = FALSE, !.inv = TRUE]   \* handlers invoked (and taken), reply sent
+(* (a debug thread that panicked while it held the context lock has poisoned it: the main thread panics at its next lock().unwrap()) *)
+MShutdown(s) == IF s.poison THEN [s EXCEPT !.m = "panicked", !.exit = 101]
+                ELSE [s EXCEPT !.m = "wait_exit", !.sig = s.handler, !.handler = FALSE, !.inv = TRUE]   \* handlers invoked (and taken), reply sent
 (* invoke_shutdown_handlers sends on a channel of capacity 1 per handler (mos/src/lsp/mod.rs add_shutdown_handler): the send  *)
 (* never waits for the session thread. With capacity 0 (hypothetical deviation "RendezvousSignal") it is a rendezvous: the   *)
 (* main thread can only complete `shutdown` while the session thread sits in its select loop.                                *)
@@ -18,7 +20,7 @@ MShutdownEn(s, dev) == s.m = "serve" /\ ("RendezvousSignal" \in dev => (~s.handl
 MExit(s)     == [s EXCEPT !.m = "drain"]                               \* exit notification seen by handle_shutdown
 MLeft(s)     == [s EXCEPT !.m = "left"]                                \* receiver closed: main loop left
 MErr(s)      == [s EXCEPT !.m = "done", !.exit = 1]                    \* stdin closed while waiting for exit: protocol error is returned
-MUnwrap(s, dev) == IF s.refs > 1 /\ "UnwrapSharedContext" \in dev
+MUnwrap(s, dev) == IF s.poison \/ (s.refs > 1 /\ "UnwrapSharedContext" \in dev)
                    THEN [s EXCEPT !.m = "panicked", !.exit = 101]      \* main thread panics: the process ends with status 101
                    ELSE [s EXCEPT !.m = "io"]                          \* IO threads joined
 (* DebugServer::join. As written: set the flag, wait for the thread. Repaired ("SessionIgnoresFlag" off): the handlers are  *)
@@ -27,7 +29,7 @@ MUnwrap(s, dev) == IF s.refs > 1 /\ "UnwrapSharedContext" \in dev
 MSetFlag(s, dev) == IF "SessionIgnoresFlag" \in dev THEN [s EXCEPT !.m = "join_dbg", !.flag = TRUE]
                     ELSE [s EXCEPT !.m = "join_dbg", !.flag = TRUE, !.sig = s.sig \/ s.handler, !.handler = FALSE, !.inv = TRUE]
 MJoinEn(s, dev) == s.m = "join_dbg" /\ (s.d \in {"ended", "dead"} \/ "UnboundedJoin" \notin dev)
-MJoin(s)     == IF s.d = "dead" THEN [s EXCEPT !.m = "panicked", !.exit = 101]     \* join().expect(..) on a panicked thread
+MJoin(s, dev) == IF s.d = "dead" /\ "DeadThreadFailsJoin" \in dev THEN [s EXCEPT !.m = "panicked", !.exit = 101]     \* join().expect(..) on a panicked thread
                 ELSE [s EXCEPT !.m = "done", !.exit = 0]
 
 (* ------------------------------ debug server thread ------------------------------ *)
@@ -50,5 +52,8 @@ DDrop(s)    == [s EXCEPT !.d = "top", !.refs = @ - 1]
 (* subroutine that never returns: TestRunner::step_over loops on the session thread, holding the adapter and runner locks).  *)
 (* It is not in its select loop: it neither sees the shutdown signal nor notices its client going away.                      *)
 DBusy(s)     == [s EXCEPT !.d = "busy", !.mach = "stepping"]
+(* a panic on the debug thread outside the shutdown path (a request handler that panics, the port already in use): the thread is  *)
+(* gone for the rest of the process, its two Arc clones are dropped; if it held the context lock at that moment the lock is poisoned *)
+DKill(s, poison) == [s EXCEPT !.d = "dead", !.refs = @ - 2, !.handler = FALSE, !.sig = FALSE, !.poison = poison]
 
 ================================================================================
